@@ -672,6 +672,16 @@ theorem covar_errors_fisher (rows : List (List ℝ)) (n m : ℕ) (errs : Option 
 
 example : covarOfWord (n := 1) (m := 1) [2, 1] 1 1 = none := by simp [covarOfWord]
 
+/-- **mask_is_the_finite_pixels** (regenerated pixel selections of `covar_errors` and of `do_lmfit`):
+    both keep exactly the finite pixels — so NaN *and* ±inf blanks are excluded, and the Fisher
+    matrix is built on the same pixels the fit used -/
+theorem mask_is_the_finite_pixels (v : PixVal) :
+    keeps (fisMask 0) v = decide (v = .finite) ∧ keeps (fitMask 0) v = keeps (fisMask 0) v := by
+  cases v <;> decide
+
+/-- `~np.isnan` would let ±inf through -/
+example : keeps 2 .posInf = true ∧ keeps 1 .posInf = false := by decide
+
 end Assembly
 
 /-! ### Non-vacuity and the negation witness for the pinned loop -/
